@@ -992,14 +992,17 @@ class RZILTransformer(Transformer):
             ),
             HybridSeqOrder.SEQ_THEN_HYB,
         )
-        return self.chk_hybrid_dep(
-            self.add_op(
-                Sequence(
-                    f"seq",
-                    [items[1], self.add_op(ForLoop(f"for", items[2], compound))],
+        loop = self.add_op(ForLoop(f"for", items[2], compound))
+        for o in loop.get_op_list():
+            if (
+                not isinstance(o, str)
+                and o.get_name() in self.il_ops_holder.hybrid_effect_dict
+            ):
+                # It would have to be executed before every evaluation of the condition.
+                raise NotImplementedError(
+                    "Operations with side effects in a loop condition are not supported."
                 )
-            )
-        )
+        return self.chk_hybrid_dep(self.add_op(Sequence(f"seq", [items[1], loop])))
 
     def iteration_stmt(self, items):
         self.ext.set_token_meta_data("iteration_stmt")
